@@ -652,6 +652,28 @@ func c04Streams(seed int64, tier string, boost int) []C4Case {
 		}
 	}
 
+	// ---- stray closers at every rune position of programs with two-token lexemes: a superscript digit is sent as
+	// the two tokens ^ n, comfort mode sends an implicit * in front of an operand; the parser can stop between the two
+	twoTok := []struct {
+		gen string
+		cf  bool
+		p   string
+	}{
+		{"value", false, "func sq(x) x²; sq(3)+[1,2][1]²"}, {"value", true, "let r=2a(b+1)³; 3r r"}, {"value", true, "(a+b)(a-b)²x"},
+		{"float", true, "2(a+b)(a-b)/3x²"}, {"float", true, "sin(2pi x)² 3a b"}, {"value", false, "{k:a²}.k²+f(b³)²"},
+	}
+	for ti, tt := range twoTok {
+		rs := []rune(tt.p)
+		for i := 0; i <= len(rs); i++ {
+			for ci, closer := range []string{")", "]", "}", ";", "²"} {
+				if !thorough && ti >= 3 && (i+ci)%2 == 0 {
+					continue
+				}
+				s.add(c04Plain(tt.gen, r.Chance(0.3), tt.cf, "stray-closer-at-every-position", string(rs[:i])+closer+string(rs[i:])))
+			}
+		}
+	}
+
 	// ---- random streams
 	for i := 0; i < 350*scale; i++ {
 		gen, cm, cf := s.cfg()
@@ -934,7 +956,7 @@ func c04Human(c *C4Case, r *C4Result, src string) map[string]any {
 
 func cmdC04(seed int64, tier, outDir string) {
 	sum := NewSummary("C04", seed, tier)
-	sum.Rule = "streams: corpus of past failures; fold bombs (constant expressions whose folding at Generate time panics, fails or recurses into the stack guard - self application, pure host functions that panic/fail, failing constant index/member/method/operator - at every position the parser hands to the optimizer, optimizer on/off, a returned function is evaluated and must return); unterminated string/comment/quoted identifier, NUL and invalid UTF-8 inserted at every position of valid programs; uniform and alphabet-biased random bytes; token soup over the language's alphabet; mutations (delete/insert/duplicate/swap/truncate) of valid programs (built-in programs per grammar and the C15 program generator); inputs up to 64 KiB; nesting up to 30000 (parentheses, brackets, braces, unary chains, if chains, closures, calls ...) x {value, bool, float generators, a generator without binary operators, one whose prefix operator is its last binary operator} x {comments, comfort}. Non-trivial = Generate returned an error on an input of at least 3 tokens, or a function on an input of at least 10 tokens; distinct by (generator, comments, comfort, outcome, error message class, token type sequence)"
+	sum.Rule = "streams: corpus of past failures; stray closers ) ] } ; and superscripts at every rune position of programs with superscripts and comfort products (two-token lexemes); fold bombs (constant expressions whose folding at Generate time panics, fails or recurses into the stack guard - self application, pure host functions that panic/fail, failing constant index/member/method/operator - at every position the parser hands to the optimizer, optimizer on/off, a returned function is evaluated and must return); unterminated string/comment/quoted identifier, NUL and invalid UTF-8 inserted at every position of valid programs; uniform and alphabet-biased random bytes; token soup over the language's alphabet; mutations (delete/insert/duplicate/swap/truncate) of valid programs (built-in programs per grammar and the C15 program generator); inputs up to 64 KiB; nesting up to 30000 (parentheses, brackets, braces, unary chains, if chains, closures, calls ...) x {value, bool, float generators, a generator without binary operators, one whose prefix operator is its last binary operator} x {comments, comfort}. Non-trivial = Generate returned an error on an input of at least 3 tokens, or a function on an input of at least 10 tokens; distinct by (generator, comments, comfort, outcome, error message class, token type sequence)"
 	log.SetOutput(io.Discard)
 	cw := NewCaseWriter(outDir, "From P2 Require Import Base.Prelude Lex.Token Lex.Tok Run.C15Run Run.C04Run.", "c04_case", "c04_id", "c04_im", "c04_is", 250)
 	base := c04CoqTables()
